@@ -43,6 +43,12 @@ Step ==
             /\ Report(InvChecks(Cfg, StateOf(ln), ln.can))
             /\ st' = StateOf(ln)
        [] ln.t = "reset" -> st' = Empty
+       [] ln.t = "fatal" ->
+            \* the process died between calls (e.g. the C library found its heap corrupted): an earlier call of
+            \* this history wrote outside its storage
+            /\ Report({<<"C02", "process died between calls (memory corrupted by an earlier call)", 0>>,
+                       <<"C12", "process died between calls (memory corrupted by an earlier call)", 0>>})
+            /\ st' = Empty
        [] OTHER -> st' = st
   /\ l' = l + 1
 
